@@ -206,6 +206,61 @@ func runC08(res *hx.Result, rng *hx.Rng, tier string, outdir string) {
 		cs.Add("cases", fmt.Sprintf("{| p_kind := %d; p_ty := %s; p_enc := %s; p_cuts := %s |}", kind, t.Coq(), hx.Hex(enc), hx.Str(cls.String())),
 			fmt.Sprintf("%s sig=%s enc=%x", k8Names[kind], t.Sig(), enc))
 	}
+	// cold decoders: the FIRST thing a decoder sees of a type is a truncated encoding (a decoder that
+	// learns the layout of a type while decoding must not learn it from a failed attempt).  Struct
+	// types never used before in this process (fresh member names give a fresh reflect type and a
+	// fresh signature), at top level, as list element, map value and nested member.
+	for i := 0; i < 40 && !sw["refl_struct_ignores_err"]; i++ {
+		fields := []string{fmt.Sprintf("id%d", i), fmt.Sprintf("name%d", i), fmt.Sprintf("stamp%d", i)}
+		inner := wg.Struct(fmt.Sprintf("Cold%d", i), fields, wg.Scalar("i"), wg.Scalar("s"), wg.Scalar(string("lLdI"[i%4])))
+		var t *wg.Ty
+		switch i % 4 {
+		case 0:
+			t = inner
+		case 1:
+			t = wg.List(inner)
+		case 2:
+			t = wg.Map(wg.Scalar("s"), inner)
+		default:
+			t = wg.Struct(fmt.Sprintf("Outer%d", i), []string{"a", "b"}, inner, wg.Scalar("i"))
+		}
+		v := wg.GenValFull(rng, t, 1)
+		enc := v.Enc()
+		rt, ok := goType(t.Sig())
+		if !ok || len(enc) < 8 {
+			continue
+		}
+		k := 1 + rng.Intn(len(enc)-1)
+		first := reflDec(rt, t, enc[:k])
+		cuts++
+		if first.class != ocErr {
+			res.Fail("prefix-accepted", fmt.Sprintf("reflection-decoder signature %s: the first %d of %d bytes of %x (the first value of that type the decoder ever sees) are decoded with class %d", t.Sig(), k, len(enc), enc, first.class))
+		}
+		full := reflDec(rt, t, enc)
+		if full.class != ocOK || full.left != 0 || full.val.Canon() != v.Canon() {
+			got := "<none>"
+			if full.val != nil {
+				got = full.val.Canon()
+			}
+			res.Fail("full-encoding-refused", fmt.Sprintf("reflection-decoder signature %s: after a first, truncated, decode of that type (%d of %d bytes) the full encoding %x decodes with class %d to %s, expected %s", t.Sig(), k, len(enc), enc, full.class, got, v.Canon()))
+		}
+		for c := 0; c < len(enc); c++ {
+			cuts++
+			if o := reflDec(rt, t, enc[:c]); o.class != ocErr {
+				res.Fail("prefix-accepted", fmt.Sprintf("reflection-decoder signature %s: after a first, truncated, decode of that type (%d of %d bytes), the first %d bytes of %x are decoded with class %d", t.Sig(), k, len(enc), c, enc, o.class))
+				break
+			}
+		}
+		// the same for the signature-driven reader
+		if o := sigRead(t.Sig(), enc[:k]); o.class != ocErr {
+			res.Fail("prefix-accepted", fmt.Sprintf("sig-reader signature %s: the first %d of %d bytes of %x are accepted (class %d)", t.Sig(), k, len(enc), enc, o.class))
+		}
+		if o := sigRead(t.Sig(), enc); o.class != ocOK || !bytes.Equal(o.data, enc) {
+			res.Fail("full-encoding-refused", fmt.Sprintf("sig-reader signature %s: after a truncated read the full encoding %x is read with class %d as %x", t.Sig(), enc, o.class, o.data))
+		}
+		res.Count(fmt.Sprintf("cold|%s|%x", t.Sig(), enc), true)
+		res.Dist("decoder:cold (first decode of a fresh type is truncated)")
+	}
 	// frames with payloads of tens of KiB and more (too large for the in-Coq evaluation):
 	// implementation-side oracle on a sample of cut positions, through every reader kind
 	for _, n := range []int{65535, 65536, 65537, 70000, 300000, 1 << 20} {
